@@ -1,6 +1,203 @@
-From Coq Require Import String Ascii List Bool.
+(* C20 - name patterns expand exactly like sympy.symbols and shape the created elements.
+   Property theorems only: each is closed by [exact] of a lemma of Proofs/PatternsP.v and
+   followed by Print Assumptions.  expand_A models sympde's expand_name_patterns, symbols_B the
+   name logic of the installed sympy.symbols (Model/PatternsM.v). *)
+From Coq Require Import String Ascii List Bool Arith ZArith.
 From V Require Import Model.PatternsM Proofs.PatternsP.
 Import ListNotations.
-Theorem C20_str_equal : forall s seq, seq_in_scope seq -> expand_str_A s seq = symbols_str_B s seq.
-Proof. exact str_equal. Qed.
-Print Assumptions C20_str_equal.
+Open Scope string_scope.
+
+(* ---- first sentence: same names, same structure, same error type ----------------------- *)
+
+(* every string, seq not given / True / False: values and error kinds coincide *)
+Theorem C20_string_equal : forall s seq,
+  seq_in_scope seq -> expand_A (PStr s) seq = symbols_B (PStr s) seq.
+Proof. exact string_equal. Qed.
+Print Assumptions C20_string_equal.
+
+(* every nesting of lists / tuples / sets of patterns, seq not given *)
+Theorem C20_nested_equal_without_seq : forall p, expand_A p SeqAbsent = symbols_B p SeqAbsent.
+Proof. exact nested_equal_absent. Qed.
+Print Assumptions C20_nested_equal_without_seq.
+
+(* nested input with seq given.  Full statement:
+     forall p b, expand_A p (SeqBool b) = symbols_B p (SeqBool b)
+   is false of the code (sympde ignores seq below the top level, sympy passes it down): *)
+Theorem C20_nested_seq_refuted :
+  (exists p, expand_A p (SeqBool true) <> symbols_B p (SeqBool true)) /\
+  (exists p, expand_A p (SeqBool false) <> symbols_B p (SeqBool false)).
+Proof. exact nested_seq_refuted. Qed.
+Print Assumptions C20_nested_seq_refuted.
+
+(* ... and holds exactly under the guard that seq makes no difference for the inner strings *)
+Theorem C20_nested_equal_partial : forall p b,
+  (forall s, In s (inner_strings p) -> symbols_B (PStr s) (SeqBool b) = symbols_B (PStr s) SeqAbsent) ->
+  expand_A p (SeqBool b) = symbols_B p (SeqBool b).
+Proof. exact nested_equal_partial. Qed.
+Print Assumptions C20_nested_equal_partial.
+
+(* the hand-written scanner is the regular expression ([0-9]*:[0-9]+|[a-zA-Z]?:[a-zA-Z]) under
+   a backtracking semantics (alternatives in order, greedy repetition), and so is the split *)
+Theorem C20_scanner_is_the_regex : forall s, match_range s = re_match range_re s.
+Proof. exact match_range_correct. Qed.
+Print Assumptions C20_scanner_is_the_regex.
+
+Theorem C20_split_is_re_split : forall s, range_split s = re_split (re_match range_re) s.
+Proof. exact range_split_is_re_split. Qed.
+Print Assumptions C20_split_is_re_split.
+
+(* the building blocks mean what the expansion rules say *)
+Theorem C20_space_split_loop : forall names, ws_loop names = flat_map split_ws names.
+Proof. exact ws_loop_flat_map. Qed.
+Print Assumptions C20_space_split_loop.
+
+Theorem C20_comma_split : forall sep s,
+  join sep (split_char sep s) = s /\ Forall (fun p => mem sep p = false) (split_char sep s).
+Proof. exact split_char_spec. Qed.
+Print Assumptions C20_comma_split.
+
+Theorem C20_space_split : forall s,
+  Forall (fun p => p <> [] /\ forallb (fun c => negb (is_space c)) p = true) (split_ws s).
+Proof. exact split_ws_pieces. Qed.
+Print Assumptions C20_space_split.
+
+Theorem C20_numeric_range_exclusive : forall a b x, In x (zrange a b) <-> (a <= x < b)%Z.
+Proof. exact zrange_spec. Qed.
+Print Assumptions C20_numeric_range_exclusive.
+
+Theorem C20_product_order : forall l1 l2,
+  cartes_join [l1; l2] = flat_map (fun x => map (fun y => (x ++ y)%list) l2) l1.
+Proof. exact cartes_join_two. Qed.
+Print Assumptions C20_product_order.
+
+Theorem C20_product_size : forall ls,
+  length (cartes_join ls) = fold_right (fun l n => length l * n) 1 ls.
+Proof. exact cartes_join_length. Qed.
+Print Assumptions C20_product_size.
+
+Theorem C20_result_packing : forall res seq,
+  pack res seq = match res, seq with
+                 | [x], false => name_of x
+                 | _, _ => OSeq CTuple (map name_of res)
+                 end.
+Proof. exact pack_spec. Qed.
+Print Assumptions C20_result_packing.
+
+(* ---- second sentence: elements carry exactly those names, in the matching nesting, each in
+        the corresponding component space ---------------------------------------------------- *)
+
+(* Full statement: the same without [fits]; it is false of the code (zip truncates silently): *)
+Theorem C20_element_structure_refuted :
+  exists sp p names e, expand_A p SeqAbsent = Ok names /\ element_of sp p = Ok e /\
+                       names_tree e <> names /\ map fst (leaves e) <> flat_out names.
+Proof. exact element_structure_refuted. Qed.
+Print Assumptions C20_element_structure_refuted.
+
+Theorem C20_elements_structure_refuted :
+  exists sp p names e, expand_A p (SeqBool true) = Ok names /\ elements_of sp p = Ok e /\
+                       names_tree e <> names /\ map fst (leaves e) <> flat_out names.
+Proof. exact elements_structure_refuted. Qed.
+Print Assumptions C20_elements_structure_refuted.
+
+(* [fits sp names]: under a product space there are no more entries than component spaces *)
+Theorem C20_element_of_structure_partial : forall sp p names e,
+  expand_A p SeqAbsent = Ok names -> element_of sp p = Ok e -> fits sp names = true ->
+  names_tree e = names /\ placed sp e.
+Proof. exact element_of_structure_partial. Qed.
+Print Assumptions C20_element_of_structure_partial.
+
+Theorem C20_elements_of_structure_partial : forall sp p names e,
+  expand_A p (SeqBool true) = Ok names -> elements_of sp p = Ok e -> fits sp names = true ->
+  names_tree e = names /\ placed sp e.
+Proof. exact elements_of_structure_partial. Qed.
+Print Assumptions C20_elements_of_structure_partial.
+
+Theorem C20_element_of_no_name_lost : forall sp p names e,
+  expand_A p SeqAbsent = Ok names -> element_of sp p = Ok e -> fits sp names = true ->
+  map fst (leaves e) = flat_out names.
+Proof. exact element_of_names. Qed.
+Print Assumptions C20_element_of_no_name_lost.
+
+(* a product space is flat, and one plain name per entry gives literally zip(spaces, names) *)
+Theorem C20_product_is_flat : forall l,
+  forallb flat_space l = true ->
+  flat_space (product_new l) = true /\ comps (product_new l) = flat_map comps l.
+Proof. exact product_new_spec. Qed.
+Print Assumptions C20_product_is_flat.
+
+Theorem C20_element_of_is_zip : forall c spaces ns,
+  forallb is_basic spaces = true ->
+  rec_element_of (SProduct spaces) (OSeq c (map OName ns)) = Ok (ESeq c (map mkfun (combine spaces ns))) /\
+  rec_elements_of (SProduct spaces) (OSeq c (map OName ns)) = Ok (ESeq c (map mkfun (combine spaces ns))).
+Proof. exact element_of_is_zip. Qed.
+Print Assumptions C20_element_of_is_zip.
+
+Theorem C20_element_of_leaves : forall c spaces ns e,
+  forallb is_basic spaces = true ->
+  rec_element_of (SProduct spaces) (OSeq c (map OName ns)) = Ok e ->
+  leaves e = combine ns spaces /\ (length ns <= length spaces -> map fst (leaves e) = ns).
+Proof. exact element_of_leaves. Qed.
+Print Assumptions C20_element_of_leaves.
+
+(* ---- non-vacuity: the hypotheses are met by concrete inputs, and the models compute ------ *)
+Example C20_ex_scope : seq_in_scope SeqAbsent /\ seq_in_scope (SeqBool true) /\ seq_in_scope (SeqBool false).
+Proof. simpl. auto. Qed.
+
+(* the examples of sympde/core/tests/test_utils.py and of the sympy docstring *)
+Example C20_ex_values :
+  expand_A (PStr "x:2(1:3)") SeqAbsent = Ok (OSeq CTuple [OName "x01"; OName "x02"; OName "x11"; OName "x12"]) /\
+  expand_A (PStr "x((a:b))") SeqAbsent = Ok (OSeq CTuple [OName "x(a)"; OName "x(b)"]) /\
+  expand_A (PStr "x(:1\,:2)") SeqAbsent = Ok (OSeq CTuple [OName "x(0,0)"; OName "x(0,1)"]) /\
+  expand_A (PStr "x5:10, :c") SeqAbsent =
+    Ok (OSeq CTuple [OName "x5"; OName "x6"; OName "x7"; OName "x8"; OName "x9"; OName "a"; OName "b"; OName "c"]) /\
+  expand_A (PStr "x") SeqAbsent = Ok (OName "x") /\
+  expand_A (PStr "x,") SeqAbsent = Ok (OSeq CTuple [OName "x"]) /\
+  expand_A (PStr "x") (SeqBool true) = Ok (OSeq CTuple [OName "x"]) /\
+  expand_A (PStr "x:c") SeqAbsent = Ok (OSeq CTuple []) /\
+  expand_A (PStr "x,,y") SeqAbsent = Err ValueErr /\
+  expand_A (PStr "x:") SeqAbsent = Err ValueErr /\
+  expand_A PBad SeqAbsent = Err TypeErr /\
+  expand_A (PSeq CTuple [PStr "x2:5"; PStr "y:2"]) SeqAbsent =
+    Ok (OSeq CTuple [OSeq CTuple [OName "x2"; OName "x3"; OName "x4"]; OSeq CTuple [OName "y0"; OName "y1"]]).
+Proof. vm_compute. repeat split. Qed.
+
+(* the guard of C20_nested_equal_partial holds for a nested pattern with ranges and lists *)
+Example C20_ex_nested_guard :
+  let p := PSeq CList [PStr "x:2"; PSeq CTuple [PStr "a, b"; PStr "c,"]] in
+  (forall s, In s (inner_strings p) -> symbols_B (PStr s) (SeqBool true) = symbols_B (PStr s) SeqAbsent) /\
+  expand_A p (SeqBool true) =
+    Ok (OSeq CList [OSeq CTuple [OName "x0"; OName "x1"];
+                    OSeq CTuple [OSeq CTuple [OName "a"; OName "b"]; OSeq CTuple [OName "c"]]]).
+Proof.
+  simpl. split; [|vm_compute; reflexivity].
+  intros s [<-|[<-|[<-|[]]]]; vm_compute; reflexivity.
+Qed.
+
+(* the witnesses of the two refutations, as the real code shows them *)
+Example C20_ex_witnesses :
+  expand_A (PSeq CList [PStr "x"; PStr "y"]) (SeqBool true) = Ok (OSeq CList [OName "x"; OName "y"]) /\
+  symbols_B (PSeq CList [PStr "x"; PStr "y"]) (SeqBool true) =
+    Ok (OSeq CList [OSeq CTuple [OName "x"]; OSeq CTuple [OName "y"]]) /\
+  element_of (product_new [SBasic KScalar "V"; SBasic KVector "W"]) (PStr "a,b,c") =
+    Ok (ESeq CTuple [EFun KScalar "a" (SBasic KScalar "V"); EFun KVector "b" (SBasic KVector "W")]).
+Proof. vm_compute. repeat split. Qed.
+
+(* the hypothesis [fits] is met, with a non-trivial result, for a product of three spaces
+   (one factor itself a product) and for several elements of one space *)
+Example C20_ex_fits :
+  let V := SBasic KScalar "V" in let W := SBasic KVector "W" in let X := SBasic KScalar "X" in
+  let sp := product_new [V; product_new [W; X]] in
+  fits sp (OSeq CTuple [OName "u0"; OName "u1"; OName "u2"]) = true /\
+  forallb flat_space [V; product_new [W; X]] = true /\
+  element_of sp (PStr "u:3") = Ok (ESeq CTuple [EFun KScalar "u0" V; EFun KVector "u1" W; EFun KScalar "u2" X]) /\
+  fits W (OSeq CList [OName "a"; OSeq CTuple [OName "b0"; OName "b1"]]) = true /\
+  elements_of W (PSeq CList [PStr "a"; PStr "b:2"]) =
+    Ok (ESeq CList [EFun KVector "a" W; ESeq CTuple [EFun KVector "b0" W; EFun KVector "b1" W]]).
+Proof. vm_compute. repeat split. Qed.
+
+(* outside the property's quantifier (seq=None given explicitly, seq not a bool) the two
+   functions differ by design; recorded so that the scope of C20_string_equal is exact *)
+Example C20_ex_outside_scope :
+  expand_A (PStr "x,") SeqNone <> symbols_B (PStr "x,") SeqNone /\
+  expand_A (PStr "x") (SeqOther true) <> symbols_B (PStr "x") (SeqOther true).
+Proof. exact (conj seq_none_differs seq_nonbool_differs). Qed.
